@@ -99,9 +99,16 @@ def run(tier, seed):
                         continue
                     if req >= 5 and tier == 'quick' and (va, vb) != (0, 0):
                         continue        # these requests do not go through a.py / b.py
+                    if nops == 2 and tier == 'thorough' and ((va, vb) not in ((0, 0), (0, 2), (1, 3), (2, 2), (3, 3), (0, 3)) or
+                                                             (req >= 5 and (va, vb) != (0, 0))):
+                        continue        # (a run with every two-rewrite history and every warm-up request did not finish in 90 minutes)
                     pre = 'nops == %d and va == %d and vb == %d and req == %d' % (nops, va, vb, req)
                     if nops == 1:
                         pre += ' and f2 == 0 and v2 == 0'
+                        if tier == 'thorough':
+                            pre += ' and (warm == 0 or warm == %d)' % req
+                    elif tier == 'thorough':
+                        pre += ' and vc <= 0 and (warm == 0 or warm == %d)' % req
                     if tier == 'quick':
                         # the package module matters for the requests that reach it; the others keep it absent
                         if req in (5, 6, 8):
@@ -114,7 +121,7 @@ def run(tier, seed):
 
                     new = 'hist_n%d_a%d_b%d_r%d' % (nops, va, vb, req)
                     qs.append(Query(new, src + '\n\n' + copy_fn(src, 'check', new, pre), new, 'main',
-                                    400 if tier == 'quick' else 1500, per_path=60, meta={}, label='S'))
+                                    400 if tier == 'quick' else 600, per_path=60, meta={}, label='S'))
     qs.append(Query('check__twin', src + '\n\n' + copy_fn(src, 'check', 'check__twin',
                                                         'nops == 1 and va == 0 and vb == 0 and vc == 0 and req == 0 and warm == 0 and f2 == 0 and v2 == 0',
                                                         twin=True), 'check__twin', 'twin', 120))
